@@ -2,13 +2,10 @@
    explicitly or auto-generated, with or without ON CONFLICT DO NOTHING), run from any reachable
    state, leaves every live row in place.  Together with the uniqueness of primary keys this says
    that auto-generated keys never collide with existing ones. *)
-From V Require Import SQLCons.Model SQLCons.Basics SQLCons.Steps SQLCons.Frame SQLCons.Refuted.
+From V Require Import SQLCons.Model SQLCons.Spec SQLCons.Basics SQLCons.Steps SQLCons.Frame SQLCons.Refuted.
 From Coq Require Import ZArith Lia.
 From Coq Require Import ZifyN ZifyNat ZifyBool.
 Open Scope N_scope.
-
-Definition plain_insert (s : stmt) : bool :=
-  match s with SIns MInsert _ | SIns MDoNothing _ => true | _ => false end.
 
 Lemma tx_get_false c t k t1 :
   tx_get c t k = (false, t1) ->
